@@ -8,6 +8,8 @@ import GeonumModel.Lemmas.Shift
 import GeonumModel.Lemmas.AngleStep
 import GeonumModel.Lemmas.ExactAdd
 import GeonumModel.Lemmas.FloatMetric
+import GeonumModel.Spec.RoundWitness
+import GeonumModel.Props.C06
 
 set_option linter.unusedSectionVars false
 set_option linter.unusedVariables false
@@ -174,6 +176,60 @@ theorem sum_shift_cartesian_float {a b : Geonum F} (n : ℕ) (ha : a.angle.Inv) 
           + (40 * ((a.angle.blade + 4 * n + b.angle.blade : ℕ) : ℝ) + 170) * (1 / 2 ^ 53))) + 1 / 10 ^ 28) :=
   Geonum.sum_shift_cartesian_float n ha hb hma hmb hcb h1 h2 h1' h2'
 
+/-- (B) **dimension freedom of sums in rounded arithmetic, every branch**: whatever branches `+` takes before and after `4n` quarter turns
+    are added to the first summand (the shift can move a pair out of the same-angle or opposite branch into the general one), the
+    Cartesian components of the two sums differ by at most the two every-branch accuracy bounds -/
+theorem sum_shift_every_branch_float {a b : Geonum F} (n : ℕ) (ha : a.angle.Inv) (hb : b.angle.Inv) (hma : a.MagDom) (hmb : b.MagDom)
+    (hcb : a.angle.blade + 4 * n + b.angle.blade ≤ 2 ^ 39) :
+    |val ((a.shift4 n).add b).mag * Real.cos (Angle.Tpi ((a.shift4 n).add b).angle) - val (a.add b).mag * Real.cos (Angle.Tpi (a.add b).angle)|
+      ≤ 2 * ((val a.mag + val b.mag) * (2 / 10 ^ 7 + 11 / 10 * (val (e10 : F)
+          + (40 * ((a.angle.blade + 4 * n + b.angle.blade : ℕ) : ℝ) + 170) * (1 / 2 ^ 53))) + 1 / 10 ^ 28 + 2 * val (e10 : F)) ∧
+    |val ((a.shift4 n).add b).mag * Real.sin (Angle.Tpi ((a.shift4 n).add b).angle) - val (a.add b).mag * Real.sin (Angle.Tpi (a.add b).angle)|
+      ≤ 2 * ((val a.mag + val b.mag) * (2 / 10 ^ 7 + 11 / 10 * (val (e10 : F)
+          + (40 * ((a.angle.blade + 4 * n + b.angle.blade : ℕ) : ℝ) + 170) * (1 / 2 ^ 53))) + 1 / 10 ^ 28 + 2 * val (e10 : F)) := by
+  obtain ⟨hc, hs, hm, _⟩ := Geonum.cart_shift4 a n
+  have hcb0 : a.angle.blade + b.angle.blade ≤ 2 ^ 39 := by omega
+  have hbl : (a.shift4 n).angle.blade + b.angle.blade = a.angle.blade + 4 * n + b.angle.blade := rfl
+  obtain ⟨p1, p2⟩ := C06.sum_cartesian_every_branch_float ha hb hma hmb hcb0
+  obtain ⟨q1, q2⟩ := C06.sum_cartesian_every_branch_float (a := a.shift4 n) (show (a.shift4 n).angle.Inv from ha) hb
+    (show (a.shift4 n).MagDom from hma) hmb (by rw [hbl]; exact hcb)
+  rw [hc, hm, hbl] at q1
+  rw [hs, hm, hbl] at q2
+  have he := val_e10_pos (F := F)
+  have hmono : (val a.mag + val b.mag) * (2 / 10 ^ 7 + 11 / 10 * (val (e10 : F)
+        + (40 * ((a.angle.blade + b.angle.blade : ℕ) : ℝ) + 170) * (1 / 2 ^ 53)))
+      ≤ (val a.mag + val b.mag) * (2 / 10 ^ 7 + 11 / 10 * (val (e10 : F)
+        + (40 * ((a.angle.blade + 4 * n + b.angle.blade : ℕ) : ℝ) + 170) * (1 / 2 ^ 53))) := by
+    have hle : ((a.angle.blade + b.angle.blade : ℕ) : ℝ) ≤ ((a.angle.blade + 4 * n + b.angle.blade : ℕ) : ℝ) := by
+      exact_mod_cast (by omega : a.angle.blade + b.angle.blade ≤ a.angle.blade + 4 * n + b.angle.blade)
+    have hAB : 0 ≤ val a.mag + val b.mag := add_nonneg hma.2.1 hmb.2.1
+    have : (40 * ((a.angle.blade + b.angle.blade : ℕ) : ℝ) + 170) * (1 / 2 ^ 53)
+        ≤ (40 * ((a.angle.blade + 4 * n + b.angle.blade : ℕ) : ℝ) + 170) * (1 / 2 ^ 53) :=
+      mul_le_mul_of_nonneg_right (by linarith) (by positivity)
+    exact mul_le_mul_of_nonneg_left (by linarith) hAB
+  rw [abs_le] at p1 p2 q1 q2 ⊢
+  rw [abs_le]
+  constructor <;> constructor <;> linarith [p1.1, p1.2, p2.1, p2.2, q1.1, q1.2, q2.1, q2.2]
+
 end B
+
+
+/-! ### R — on the arithmetic that really rounds (`R64`: round-to-nearest on the binary64 grid, correctly rounded libm) -/
+section R
+
+/-- (R) whole turns on a summand leave the sum's Cartesian components in place, for all pairs of binary64 numbers in the domain -/
+theorem sum_shift_cartesian_rounded {a b : Geonum R64} (n : ℕ) (ha : a.angle.Inv) (hb : b.angle.Inv) (hma : a.MagDom) (hmb : b.MagDom)
+    (hcb : a.angle.blade + 4 * n + b.angle.blade ≤ 2 ^ 39)
+    (h1 : Geonum.sameAngle a b = false) (h2 : Geonum.oppositeAngle a b = false)
+    (h1' : Geonum.sameAngle (a.shift4 n) b = false) (h2' : Geonum.oppositeAngle (a.shift4 n) b = false) :
+    |((a.shift4 n).add b).mag.v * Real.cos (Angle.Tpi ((a.shift4 n).add b).angle) - (a.add b).mag.v * Real.cos (Angle.Tpi (a.add b).angle)|
+      ≤ 2 * ((a.mag.v + b.mag.v) * (2 / 10 ^ 7 + 11 / 10 * ((e10 : R64).v
+          + (40 * ((a.angle.blade + 4 * n + b.angle.blade : ℕ) : ℝ) + 170) * (1 / 2 ^ 53))) + 1 / 10 ^ 28) ∧
+    |((a.shift4 n).add b).mag.v * Real.sin (Angle.Tpi ((a.shift4 n).add b).angle) - (a.add b).mag.v * Real.sin (Angle.Tpi (a.add b).angle)|
+      ≤ 2 * ((a.mag.v + b.mag.v) * (2 / 10 ^ 7 + 11 / 10 * ((e10 : R64).v
+          + (40 * ((a.angle.blade + 4 * n + b.angle.blade : ℕ) : ℝ) + 170) * (1 / 2 ^ 53))) + 1 / 10 ^ 28) :=
+  sum_shift_cartesian_float (F := R64) n ha hb hma hmb hcb h1 h2 h1' h2'
+
+end R
 
 end GeonumModel.C08
